@@ -29,6 +29,7 @@ type Mutant struct {
 	File       string // repository-relative
 	Func       string // text that must precede Old (start of the search window), usually "func (s *Serf) name("
 	Old, New   string
+	Old2, New2 string // optional second rewrite in the same function
 	Expect     string // substring of the violated obligation key that must be reported
 	Equivalent bool   // behaviour-preserving variant: the rule must stay silent
 }
@@ -60,6 +61,12 @@ func (m Mutant) Overlay(repo string) (map[string][]byte, bool) {
 		return nil, false
 	}
 	win = strings.Replace(win, m.Old, m.New, 1)
+	if m.Old2 != "" {
+		if strings.Count(win, m.Old2) != 1 {
+			return nil, false
+		}
+		win = strings.Replace(win, m.Old2, m.New2, 1)
+	}
 	return map[string][]byte{file: []byte(s[:start] + win + s[end:])}, true
 }
 
@@ -199,4 +206,78 @@ func guardReadInSection(fn *ssa.Function, target ssa.Instruction, want an.Cmp, l
 		return "(the lock is released between the test of " + want.L + " and the action: stale check)"
 	}
 	return ""
+}
+
+// decodeTargetsFresh decides, for every msgpack decode site in funcs whose target is a local
+// variable, that the variable is a fresh (zero) value at each execution of the decode: no path
+// leads from a decode into that variable to a decode into the same variable without passing the
+// variable's allocation again. (The decoder only overwrites the fields present in the input, so a
+// reused target keeps fields of the previous message.) Returns the number of sites examined.
+func decodeTargetsFresh(c *an.Ctx, rule string, funcs []*ssa.Function) int {
+	n := 0
+	for _, f := range funcs {
+		type site struct {
+			in ssa.Instruction
+			al *ssa.Alloc
+		}
+		var sites []site
+		an.Instrs(f, func(in ssa.Instruction) {
+			cc := an.CallOf(in)
+			if cc == nil {
+				return
+			}
+			callee := an.StaticCallee(cc)
+			if callee == nil {
+				return
+			}
+			var target ssa.Value
+			switch an.CalleeName(callee) {
+			case "decodeMessage":
+				if len(cc.Args) == 2 {
+					target = cc.Args[1]
+				}
+			case "codec.(*Decoder).Decode":
+				if len(cc.Args) == 2 {
+					target = cc.Args[1]
+				}
+			}
+			if target == nil {
+				return
+			}
+			if mi, ok := target.(*ssa.MakeInterface); ok {
+				target = mi.X
+			}
+			if al, ok := an.Strip(target).(*ssa.Alloc); ok {
+				sites = append(sites, site{in, al})
+			}
+		})
+		for _, s := range sites {
+			n++
+			again := an.ReachFrom(f, s.in, &an.Cut{Instrs: func(in ssa.Instruction) bool {
+				if in == ssa.Instruction(s.al) {
+					return true
+				}
+				// an explicit reset to the zero value is as good as a new variable
+				if st, ok := in.(*ssa.Store); ok && st.Addr == ssa.Value(s.al) {
+					if k, ok := st.Val.(*ssa.Const); ok && k.Value == nil {
+						return true
+					}
+				}
+				return false
+			}}, func(in ssa.Instruction) bool {
+				for _, t := range sites {
+					if t.in == in && t.al == s.al {
+						return true
+					}
+				}
+				return false
+			})
+			name := s.al.Comment
+			if name == "" {
+				name = s.al.Name()
+			}
+			c.Add(again == nil, rule, an.FuncName(f)+":decode-target-fresh:"+name, s.in, "the decode target "+name+" is a fresh zero value each time a message is decoded into it (a reused struct would keep fields of the previous message)", "reach/cut: no decode→decode path avoiding the variable's allocation")
+		}
+	}
+	return n
 }
